@@ -6,7 +6,7 @@ from fractions import Fraction
 
 from .algebra import Algebra, RF
 from .interp import Interp, GvnDomain
-from .project import AnalysisError
+from .project import AnalysisError, unparse as unparse_
 
 THRESH = Fraction("1e-40")     # largest product threshold used to state the 'above scale' regime
 
@@ -101,6 +101,15 @@ class LimCtx:
             raise e
         for nm in ("round", "around", "round_", "builtin:round"):
             it.np_hooks[nm] = rounding_call
+
+        def invert_bool(node, func):
+            # `~(a < 0.)`: logical NOT for numpy arrays and numpy scalars -- but for two built-in floats the comparison is a Python
+            # bool and `~True == -2`, `~False == -1` are both TRUTHY: the selection always takes its first branch
+            e = AnalysisError("bitwise ~ of a comparison in a limiter")
+            e.violation = ("LIM-SCALAR", self.f.qualname, "`%s` (line %d) negates a comparison with the BITWISE operator ~: for arrays that is the logical NOT, but the statement covers scalars -- for built-in Python floats the comparison is a bool, ~True = -2 and ~False = -1 are both truthy, so np.where always selects its first branch (use np.logical_not or `not`/the opposite comparison)" % (unparse_(node)[:60], node.lineno),
+                           "invert-bool", {"C12", "C11", "C04"})
+            return e
+        it.invert_scalar_violation = invert_bool
         lc = self
 
         class _Rank:
